@@ -1,4 +1,211 @@
+//! C03 — responses on the wire are well-formed and the writer never overruns.
+//! Scenario: {"ops": [[kind, args..]..], "method": "GET"|"HEAD"}  (vocabulary of specs/RespHeaders.tla)
+//! The ops are applied to a real `Response` through the public API; after every op the header block is
+//! snapshotted with the public `_write_to`; the finished response goes through the real router
+//! (`complete()`, HEAD rule) and `Response::send` into memory, and is re-parsed by util::parse_response.
+use crate::util::{self, arr, s, Rng};
+use ohkami::__verif as v;
+use ohkami::prelude::*;
+use ohkami::header::append;
 use serde_json::{json, Value};
-pub fn run(_scn: &Value) -> Value { json!({"kind": "unimplemented"}) }
-#[allow(dead_code)]
-pub fn gen(_rng: &mut crate::util::Rng, i: usize) -> Value { json!({"id": i}) }
+
+/// (setter index, name a client must see). The expected names are the registered field names (RFC 9110 etc.),
+/// written independently of the framework's own table.
+macro_rules! std_headers { ($( $id:ident => $wire:literal ),* $(,)?) => {
+    const STD: &[&str] = &[$($wire),*];
+    fn set_std(res: &mut Response, idx: usize, val: Option<String>, app: bool) {
+        let mut i = 0usize;
+        $( if i == idx { match (val, app) {
+            (Some(x), false) => { res.headers.set().$id(x); }
+            (Some(x), true) => { res.headers.set().$id(append(x)); }
+            (None, _) => { res.headers.set().$id(None); }
+        } return } i += 1; )*
+        let _ = i;
+    }
+} }
+std_headers! {
+    Server => "Server", Vary => "Vary", CacheControl => "Cache-Control", ETag => "ETag", Location => "Location",
+    ContentEncoding => "Content-Encoding", ContentLanguage => "Content-Language", Allow => "Allow", Age => "Age",
+    AcceptRanges => "Accept-Ranges", AccessControlAllowOrigin => "Access-Control-Allow-Origin",
+    AccessControlAllowCredentials => "Access-Control-Allow-Credentials", AccessControlAllowHeaders => "Access-Control-Allow-Headers",
+    AccessControlAllowMethods => "Access-Control-Allow-Methods", AccessControlExposeHeaders => "Access-Control-Expose-Headers",
+    AccessControlMaxAge => "Access-Control-Max-Age", AltSvc => "Alt-Svc", CacheStatus => "Cache-Status",
+    CDNCacheControl => "CDN-Cache-Control", ContentDisposition => "Content-Disposition", ContentLocation => "Content-Location",
+    ContentRange => "Content-Range", ContentSecurityPolicy => "Content-Security-Policy",
+    ContentSecurityPolicyReportOnly => "Content-Security-Policy-Report-Only",
+    CrossOriginEmbedderPolicy => "Cross-Origin-Embedder-Policy", CrossOriginResourcePolicy => "Cross-Origin-Resource-Policy",
+    Expires => "Expires", Link => "Link", ProxyAuthenticate => "Proxy-Authenticate", ReferrerPolicy => "Referrer-Policy",
+    Refresh => "Refresh", RetryAfter => "Retry-After", StrictTransportSecurity => "Strict-Transport-Security",
+    Via => "Via", XContentTypeOptions => "X-Content-Type-Options", XFrameOptions => "X-Frame-Options",
+    WWWAuthenticate => "WWW-Authenticate",
+}
+const CUSTOM: &[&str] = &["X-A", "X-Custom", "X-Request-Id", "Foo", "x-lower", "X-Trace-Span-Identifier"];
+
+#[derive(Clone)]
+struct Table { seed: u64 }
+impl Table {
+    /// abstract standard name -> index into STD: "A","B" chosen by seed, "S<k>" direct
+    fn std_idx(&self, n: &str) -> usize {
+        if let Some(k) = n.strip_prefix('S') { return k.parse::<usize>().unwrap_or(0) % STD.len() }
+        let a = (self.seed as usize) % STD.len();
+        let b = (a + 1 + (self.seed as usize / STD.len()) % (STD.len() - 1)) % STD.len();
+        if n == "A" { a } else { b }
+    }
+    fn cust(&self, n: &str) -> &'static str {
+        if let Some(k) = n.strip_prefix('K') { return CUSTOM[k.parse::<usize>().unwrap_or(0) % CUSTOM.len()] }
+        let a = (self.seed as usize / 7) % CUSTOM.len();
+        if n == "X" { CUSTOM[a] } else { CUSTOM[(a + 1) % CUSTOM.len()] }
+    }
+    fn val(&self, t: &str) -> String {
+        let alt = self.seed % 2 == 1;
+        match t {
+            "p" => if alt { "z" } else { "a" }.into(),
+            "qq" => if alt { "xy" } else { "bb" }.into(),
+            "L" => std::iter::repeat(if alt { 'm' } else { 'l' }).take(300).collect(),
+            "e" => "".into(),
+            "w" => "no-cache; x=1".into(),
+            _ => format!("tok-{t}"),
+        }
+    }
+    fn cookie(&self, t: &str) -> (&'static str, &'static str) { if t == "c1" { ("sid", "1") } else { ("theme", "dk") } }
+    fn untok_val(&self, name_tok: &str, raw: &str) -> Value {
+        match name_tok {
+            "CL" => return json!([format!("n{raw}")]),
+            "CT" => return json!([match raw { "text/plain; charset=UTF-8" => "text", "text/html; charset=UTF-8" => "html", "application/json" => "json", "application/octet-stream" => "raw", _ => "?" }]),
+            "DT" => return json!(["date"]),
+            "SC" => return json!([match raw { "sid=1" => "c1", "theme=dk" => "c2", _ => "?" }]),
+            _ => {}
+        }
+        if raw.is_empty() { return json!(["e"]) }
+        let toks: Vec<String> = raw.split(", ").map(|p| {
+            for t in ["p", "qq", "L", "e", "w"] { if self.val(t) == p { return t.to_string() } }
+            "?".to_string()
+        }).collect();
+        json!(toks)
+    }
+    fn untok_name(&self, names: &[(String, String)], wire: &str) -> String {
+        match wire { "Content-Type" => return "CT".into(), "Content-Length" => return "CL".into(), "Date" => return "DT".into(), "Set-Cookie" => return "SC".into(), _ => {} }
+        for (tok, w) in names { if w == wire { return tok.clone() } }
+        format!("?{wire}")
+    }
+}
+
+fn status_of(t: &str) -> Status {
+    match t { "s204" => Status::NoContent, "s404" => Status::NotFound, "s304" => Status::NotModified, "s500" => Status::InternalServerError, "s201" => Status::Created, _ => Status::OK }
+}
+fn len_of(t: &str) -> usize { t.trim_start_matches('n').parse().unwrap_or(0) }
+
+fn apply(res: &mut Response, op: &[Value], t: &Table) {
+    match s(&op[0]) {
+        "set" => set_std(res, t.std_idx(s(&op[1])), Some(t.val(s(&op[2]))), false),
+        "app" => set_std(res, t.std_idx(s(&op[1])), Some(t.val(s(&op[2]))), true),
+        "rem" => set_std(res, t.std_idx(s(&op[1])), None, false),
+        "cset" => { res.headers.set().x(t.cust(s(&op[1])), t.val(s(&op[2]))); }
+        "capp" => { res.headers.set().x(t.cust(s(&op[1])), append(t.val(s(&op[2])))); }
+        "crem" => { res.headers.set().x(t.cust(s(&op[1])), None); }
+        "cookie" => { let (n, val) = t.cookie(s(&op[1])); res.headers.set().SetCookie(n, val, |d| d); }
+        "body" => {
+            let n = len_of(s(&op[2]));
+            match s(&op[1]) {
+                "text" => res.set_text("t".repeat(n)),
+                "html" => res.set_html("h".repeat(n)),
+                "json" => res.set_json("j".repeat(n.saturating_sub(2))),
+                _ => res.set_payload("application/octet-stream", vec![0xABu8; n]),
+            }
+        }
+        "drop" => { let _ = res.drop_content(); }
+        "status" => res.status = status_of(s(&op[1])),
+        _ => {}
+    }
+}
+
+fn names_of(ops: &[Value], t: &Table) -> Vec<(String, String)> {
+    let mut names = vec![];
+    for op in ops {
+        let op = arr(op);
+        let (k, n) = (s(&op[0]), op.get(1).map(s).unwrap_or(""));
+        let w = match k { "set" | "app" | "rem" => STD[t.std_idx(n)].to_string(), "cset" | "capp" | "crem" => t.cust(n).to_string(), _ => continue };
+        if !names.iter().any(|(a, _): &(String, String)| a == n) { names.push((n.to_string(), w)) }
+    }
+    names
+}
+
+fn block_lines(t: &Table, names: &[(String, String)], head: &[(String, String)]) -> Value {
+    json!(head.iter().map(|(k, val)| { let n = t.untok_name(names, k); let vv = t.untok_val(&n, val); json!({"n": n, "v": vv}) }).collect::<Vec<_>>())
+}
+
+pub fn run(scn: &Value) -> Value {
+    let ops: Vec<Value> = arr(&scn["ops"]).to_vec();
+    let method = s(&scn["method"]).to_string();
+    let seed = scn["seed"].as_u64().unwrap_or_else(|| scn["id"].as_u64().unwrap_or(0));
+    let t = Table { seed };
+    let names = names_of(&ops, &t);
+    // 1. step by step on one Response, snapshot after every op
+    let mut res = Response::new(Status::OK);
+    let mut steps = vec![];
+    for op in &ops {
+        apply(&mut res, arr(op), &t);
+        let mut buf = Vec::new();
+        res.headers._write_to(&mut buf);
+        let declared = v::declared_size(&res);
+        // the block is "lines CRLF CRLF": parse it as the head of a dummy response
+        let mut msg = b"HTTP/1.1 200 OK\r\n".to_vec(); msg.extend_from_slice(&buf);
+        let p = util::parse_response(&msg, true);
+        steps.push(json!({"wf": p.error.is_empty(), "lines": block_lines(&t, &names, &p.headers), "declared": declared as i64, "written": buf.len() as i64}));
+    }
+    // 2. through the router and the writer
+    let (ops2, t2) = (ops.clone(), t.clone());
+    let mut o = Ohkami::new(());
+    let hs = v::handler_set("/").GET(move || { let (ops, t) = (ops2.clone(), t2.clone()); async move {
+        let mut res = Response::new(Status::OK);
+        for op in &ops { apply(&mut res, arr(op), &t) }
+        res
+    } });
+    v::apply_handlers(&mut o, hs);
+    let router = v::finalize(o);
+    let raw = format!("{method} / HTTP/1.1\r\nHost: x\r\n\r\n").into_bytes();
+    let (out, declared) = util::block_on(async {
+        let mut req = v::VRequest::new();
+        let mut rd = &raw[..];
+        let res = match req.read(&mut rd).await { Ok(Some(())) => req.handle(&router).await, Ok(None) => panic!("harness: request not read"), Err(e) => e };
+        let declared = v::declared_size(&res);
+        let mut out = Vec::new();
+        v::send(res, &mut out).await;
+        (out, declared)
+    });
+    let p = util::parse_response(&out, method == "HEAD");
+    let head_len = util::find(&out, b"\r\n\r\n").map(|i| i + 4).unwrap_or(out.len());
+    let status_line_len = util::find(&out, b"\r\n").map(|i| i + 2).unwrap_or(0);
+    json!({"kind": "resp", "steps": steps,
+           "wire": {"wf": p.error.is_empty(), "status": p.status, "lines": block_lines(&t, &names, &p.headers), "blen": p.body.len() as i64,
+                    "framing": p.framing, "error": util::clip(&p.error, 120), "trailing": (out.len() - p.consumed.min(out.len())) as i64},
+           "declared": declared as i64, "block_written": (head_len - status_line_len) as i64,
+           "names": names.iter().map(|(a, b)| json!([a, b])).collect::<Vec<_>>()})
+}
+
+/// random histories: 20-60 ops over all standard headers, several custom names, long and empty values
+pub fn gen(rng: &mut Rng, i: usize) -> Value {
+    let n = rng.range(8, 40);
+    let nstd = rng.range(2, 8); let stds: Vec<String> = (0..nstd).map(|_| format!("S{}", rng.below(STD.len()))).collect();
+    let ncus = rng.range(1, 3); let cus: Vec<String> = (0..ncus).map(|_| format!("K{}", rng.below(CUSTOM.len()))).collect();
+    let vals = ["p", "qq", "L", "w", "e"];
+    let mut ops = vec![];
+    for _ in 0..n {
+        let r = rng.below(100);
+        let h = rng.pick(&stds).clone(); let c = rng.pick(&cus).clone(); let val = *rng.pick(&vals);
+        ops.push(match r {
+            0..=21 => json!(["set", h, val]),
+            22..=33 => json!(["app", h, if val == "e" { "p" } else { val }]),
+            34..=49 => json!(["rem", h]),
+            50..=59 => json!(["cset", c, val]),
+            60..=65 => json!(["capp", c, if val == "e" { "p" } else { val }]),
+            66..=73 => json!(["crem", c]),
+            74..=79 => json!(["cookie", if rng.chance(1, 2) { "c1" } else { "c2" }]),
+            80..=89 => { let k = *rng.pick(&["text", "html", "json", "raw"]); let l = *rng.pick(&["n0", "n1", "n3", "n12", "n300", "n1000", "n5000"]);
+                         json!(["body", k, if k == "json" && (l == "n0" || l == "n1") { "n3" } else { l }]) }
+            90..=94 => json!(["drop"]),
+            _ => json!(["status", *rng.pick(&["s200", "s204", "s404", "s201", "s500"])]),
+        });
+    }
+    json!({"id": i, "ops": ops, "method": if rng.chance(1, 4) { "HEAD" } else { "GET" }, "seed": rng.next() % 100000})
+}
